@@ -7,7 +7,7 @@ from vlib import symex
 from vlib.symex import Ctx, SInt, _z, decide, explore, check_sat
 from checks import cl_common as cl
 from checks import c09
-from checks.c09 import Env, Manifest, build_torch_ns, run_torch_tool, make_options, spec_term
+from checks.c09 import Env, Manifest, build_torch_ns, run_torch_tool, make_options, spec_term, uid
 
 PID = 'C10'
 LEVEL = 'model_checking'
@@ -152,7 +152,7 @@ def run_config(cfg):
             if decide(t != ref_files[pth][1]):
                 return ('C: file differs from the uninterrupted run', pth, str(t)[:200], str(ref_files[pth][1])[:200])
         listed = list(m2.lines) + [l for l in ''.join(m2.buffer).split('\n') if l]
-        if sorted(listed) != sorted('utt%d' % u for u in range(nutt)):
+        if sorted(listed) != sorted(uid(u, nutt) for u in range(nutt)):
             return ('manifest after resume', listed)
         return ('ok',)
 
@@ -194,9 +194,9 @@ def replay(w):
         mp = os.path.join(work, 'map')
         with open(mp, 'w') as f:
             for u in range(nutt):
-                p = os.path.join(work, 'utt%d.npy' % u)
+                p = os.path.join(work, 'sig%d.npy' % u)
                 np.save(p, rng.randn(900) * 100)
-                f.write('utt%d %s\n' % (u, p))
+                f.write('%s %s\n' % (uid(u, nutt), p))        # ids not in lexicographic order, as in the harness
         conf = {'name': 'stft', 'bank': {'name': 'fbank', 'num_filts': 5, 'sampling_rate': 8000}, 'frame_length_ms': 10, 'frame_shift_ms': 5}
         pre = [{'name': 'dither', 'coeff': 1.0}] if w['npre'] else []
 
@@ -211,6 +211,7 @@ def replay(w):
             k = max(1, min(nutt - 1, k)) if nutt > 1 else 0
         real_save = torch.save
         count = [0]
+        completed = []
 
         class Kill(BaseException):
             pass
@@ -221,7 +222,9 @@ def replay(w):
                     f.write(b'partial')
                 raise Kill()
             count[0] += 1
-            return real_save(obj, path, *a, **kw)
+            r_ = real_save(obj, path, *a, **kw)
+            completed.append(os.path.basename(str(path))[:-3])       # processing order is the tool's business: record what was really completed
+            return r_
         torch.save = save
         parse = command_line._signals_to_torch_feat_dir_parse_args
         opened = []
@@ -252,7 +255,7 @@ def replay(w):
             mf.close()
         with open(man) as f:
             listed = [l.strip() for l in f if l.strip()]
-        done = ['utt%d' % u for u in range(k)]
+        done = list(completed)
         missing = [u for u in done if u not in listed]
         if missing:
             return {'reproduced': True, 'detail': 'after a %s kill during the save of utterance %d the manifest lists %s: completed utterances %s are lost'
@@ -264,11 +267,11 @@ def replay(w):
                 return {'reproduced': True, 'detail': 'listed utterance %s has no loadable file: %s' % (u, e)}
         command_line.signals_to_torch_feat_dir(args(out, man))
         for u in range(nutt):
-            a = torch.load(os.path.join(out, 'utt%d.pt' % u))
-            b = torch.load(os.path.join(ref, 'utt%d.pt' % u))
+            a = torch.load(os.path.join(out, uid(u, nutt) + '.pt'))
+            b = torch.load(os.path.join(ref, uid(u, nutt) + '.pt'))
             if a.shape != b.shape or not torch.equal(a, b):
-                return {'reproduced': True, 'detail': 'after kill (during utterance %d) + resume, utt%d differs from the uninterrupted run (max diff %.3g)'
-                        % (k, u, float((a - b).abs().max()) if a.shape == b.shape else float('nan'))}
+                return {'reproduced': True, 'detail': 'after kill (during utterance %d) + resume, %s (map line %d, ids not sorted) differs from the uninterrupted run (max diff %.3g)'
+                        % (k, uid(u, nutt), u, float((a - b).abs().max()) if a.shape == b.shape else float('nan'))}
         return {'reproduced': False, 'detail': 'kill/resume reproduces the uninterrupted directory'}
     finally:
         shutil.rmtree(work, ignore_errors=True)
